@@ -105,80 +105,79 @@ def min_cost_flow[Node](
     demand: int,
 ) -> Result:
     """Route demand units from source to sink at minimum total cost."""
-    capacity = defaultdict(lambda: defaultdict(int))
-    cost = defaultdict(lambda: defaultdict(lambda: float("inf")))
-    nodes = set()
+    # Residual network as paired arcs: arc i and its reverse i ^ 1. Every input arc keeps its own
+    # capacity and cost, so parallel arcs are not priced alike and an arc's cancel cost (-c) never
+    # collides with the cost of an input arc running the other way.
+    tail: list[Node] = []
+    head: list[Node] = []
+    residual: list[int] = []
+    arc_cost: list[float] = []
+    nodes = {source, sink}
 
     for u in graph:
         nodes.add(u)
         for v, cap, c in graph[u]:
             nodes.add(v)
-            capacity[u][v] += cap
-            cost[u][v] = min(cost[u][v], c)
-            if cost[v][u] == float("inf"):
-                cost[v][u] = -c
+            tail += [u, v]
+            head += [v, u]
+            residual += [cap, 0]
+            arc_cost += [c, -c]
 
-    flow = defaultdict(lambda: defaultdict(int))
     total_cost = 0
     total_flow = 0
     iterations = 0
 
     def bellman_ford():
         dist = {n: float("inf") for n in nodes}
-        parent = {n: None for n in nodes}
+        parent_arc: dict[Node, int] = {}
         dist[source] = 0
 
         for _ in range(len(nodes) - 1):
             updated = False
-            for u in nodes:
-                if dist[u] == float("inf"):
-                    continue
-                for v in nodes:
-                    residual = capacity[u][v] - flow[u][v] + flow[v][u]
-                    if residual > 0 and dist[u] + cost[u][v] < dist[v]:
-                        dist[v] = dist[u] + cost[u][v]
-                        parent[v] = u
-                        updated = True
+            for arc in range(len(head)):
+                u, v = tail[arc], head[arc]
+                if residual[arc] > 0 and dist[u] + arc_cost[arc] < dist[v]:
+                    dist[v] = dist[u] + arc_cost[arc]
+                    parent_arc[v] = arc
+                    updated = True
             if not updated:
                 break
 
         if dist[sink] == float("inf"):
-            return None, float("inf")
+            return None
 
         path = []
         node = sink
-        while node is not None:
-            path.append(node)
-            node = parent[node]
+        while node != source:
+            path.append(parent_arc[node])
+            node = tail[parent_arc[node]]
         path.reverse()
 
-        return path, dist[sink]
+        return path
 
     while total_flow < demand:
         iterations += 1
-        path, path_cost = bellman_ford()
+        path = bellman_ford()
         if path is None:
             return Result({}, float("inf"), iterations, iterations, Status.INFEASIBLE)
 
         path_flow = demand - total_flow
-        for u, v in zip(path, path[1:]):
-            residual = capacity[u][v] - flow[u][v] + flow[v][u]
-            path_flow = min(path_flow, residual)
+        for arc in path:
+            path_flow = min(path_flow, residual[arc])
 
-        for u, v in zip(path, path[1:]):
-            if flow[v][u] > 0:
-                reduce = min(path_flow, flow[v][u])
-                flow[v][u] -= reduce
-                remaining = path_flow - reduce
-                flow[u][v] += remaining
-                total_cost += cost[u][v] * remaining - cost[v][u] * reduce
-            else:
-                flow[u][v] += path_flow
-                total_cost += cost[u][v] * path_flow
+        for arc in path:
+            residual[arc] -= path_flow
+            residual[arc ^ 1] += path_flow
+            total_cost += arc_cost[arc] * path_flow
 
         total_flow += path_flow
 
-    flows = {(u, v): flow[u][v] for u in flow for v in flow[u] if flow[u][v] > 0}
+    # Flow on an input arc is what its reverse arc can give back; parallel arcs are pooled per (u, v)
+    flows: dict[tuple[Node, Node], int] = {}
+    for arc in range(0, len(head), 2):
+        if residual[arc ^ 1] > 0:
+            key = (tail[arc], head[arc])
+            flows[key] = flows.get(key, 0) + residual[arc ^ 1]
     return Result(flows, total_cost, iterations, iterations)
 
 
